@@ -47,6 +47,7 @@ func runC17(c *core.Ctx) {
 	r.carry()       // K5.carry.*  (c17_carry.go)
 	r.chunkChoice() // K3.split.*, K3.choice.* (c17_choice.go)
 	r.guards()
+	r.allocs() // D.alloc (c17_alloc.go)
 }
 
 // ---------------------------------------------------------------------------
